@@ -3,6 +3,8 @@ CONSTANTS
   Models <- MCModels
   InputSets <- MCInputSets
   Pids = {"p1"}
+  TopPids = {"p1"}
+  StartAny = FALSE
   MaxActions = 0
   ActionKinds = {"complete"}
   ErrCodes = {"e1"}
